@@ -29,6 +29,9 @@ def evidence(c):
         paths[s] = hit
         if hit == 0:
             gaps.append('code path %s not reached' % s)
+    covtot = st.get('coverage_total', {})
+    percov = dict((f, (cov.get(f, 0), covtot[f])) for f in covtot)
+    unreached_funcs = sorted(f for f, (h, t) in percov.items() if h == 0)
     never = sorted(f for f, v in fn.items() if v[0] == 0)
     if never:
         gaps.append('API functions never executed: ' + ','.join(never[:12]))
@@ -65,6 +68,9 @@ def evidence(c):
         library_functions_with_coverage=len(cov),
         coverage_guards_total=st.get('nguards', 0),
         coverage_guards_hit=sum(cov.values()),
+        coverage_edge_percent=round(100.0 * sum(cov.values()) / max(1, sum(covtot.values())), 1),
+        library_functions_never_entered=unreached_funcs,
+        lowest_covered_functions=sorted(((round(100.0 * h / t), f, h, t) for f, (h, t) in percov.items() if t >= 8 and h > 0), key=lambda x: x[0])[:25],
         footprint_ops_in_solo_pass=st.get('footprint_ops', 0),
         digest_mismatches=st.get('mismatches', 0),
         unstable_candidates=st.get('unstable', 0) + len(c['batch'].unstable),
